@@ -183,38 +183,47 @@ def curveBody (dupRef : LineRef) (a : Arr) (raw normal : List Rat) : Except Err 
 /-- Python `del l[i]` for the two indices `NormalizeMeanToMid` uses -/
 def delAt (l : List α) (i : Nat) : List α := l.eraseIdx i
 
-/-- `NormalizeMeanToMid.execute`.  `none` in the statistics list stands for numpy's `nan`
-(mean of an empty selection: no valid value above the mean). -/
-def meanToMidBody (a : Arr) (ignoreZeros : Bool) (normal : List Num) : Except Err Arr :=
-  match minL a.valid, maxL a.valid with
+/-- the statistics `NormalizeMeanToMid` takes from the valid cells: (min, max, mean, mean of the values ≤ mean, mean of the values > mean);
+`none` for the last stands for numpy's `nan` (mean of an empty selection: no valid value above the mean) -/
+def mtmStats (valid : List Rat) (ignoreZeros : Bool) : Except Err (Rat × Rat × Rat × Rat × Option Rat) :=
+  match minL valid, maxL valid with
   | some low, some high =>
-      let vs := if ignoreZeros then a.valid.filter (· != 0) else a.valid
+      let vs := if ignoreZeros then valid.filter (· != 0) else valid
       match meanL vs with
       | none => eRaw "Degenerate"           -- every valid value is an ignored zero (numpy `masked` arithmetic; not modelled)
       | some mean =>
-          let below := vs.filter (· ≤ mean)
-          let above := vs.filter (· > mean)
-          match meanL below with
+          match meanL (vs.filter (· ≤ mean)) with
           | none => eRaw "Degenerate"       -- unreachable: the mean is never below every value
-          | some lowMean =>
-              let highMean := meanL above
-              let raw : List (Option Rat) := [some low, some lowMean, some mean, highMean, some high]
-              let nv := normal.map (·.val)
-              -- `if raw[-1] == raw[-2]: del raw[-2]; del normal[-2]`   (nan equals nothing)
-              let delHi := highMean == some high
-              if delHi && nv.length < 2 then eRaw "IndexError" else
-              let raw := if delHi then delAt raw 3 else raw
-              let nv := if delHi then delAt nv (nv.length - 2) else nv
-              -- `if raw[0] == raw[1]: del raw[1]; del normal[1]`
-              let delLo := low == lowMean
-              if delLo && nv.length < 2 then eRaw "IndexError" else
-              let raw := if delLo then delAt raw 1 else raw
-              let nv := if delLo then delAt nv 1 else nv
-              if raw.all Option.isSome then curveBody .none a (raw.filterMap id) nv
-              else if raw.length != nv.length then eMp "MixedArrayLengths" .cmd
-              else if hasDup (raw.filterMap id) then eMp "DuplicateRawValues" .none
-              else eRaw "Degenerate"        -- a nan control point without duplicates (unreachable: no value above the mean ⇒ low mean = mean)
+          | some lowMean => .ok (low, high, mean, lowMean, meanL (vs.filter (· > mean)))
   | _, _ => eRaw "Degenerate"               -- no valid cell at all (numpy `masked` arithmetic; not modelled)
+
+/-- the control points `NormalizeMeanToMid` hands to the curve: raw values (the five statistics with coinciding ends removed) and normal values -/
+def mtmPoints (valid : List Rat) (ignoreZeros : Bool) (normal : List Num) : Except Err (List Rat × List Rat) :=
+  match mtmStats valid ignoreZeros with
+  | .error e => .error e
+  | .ok (low, high, mean, lowMean, highMean) =>
+      let raw : List (Option Rat) := [some low, some lowMean, some mean, highMean, some high]
+      let nv := normal.map (·.val)
+      -- `if raw[-1] == raw[-2]: del raw[-2]; del normal[-2]`   (nan equals nothing)
+      let delHi := highMean == some high
+      if delHi && nv.length < 2 then eRaw "IndexError" else
+      let raw := if delHi then delAt raw 3 else raw
+      let nv := if delHi then delAt nv (nv.length - 2) else nv
+      -- `if raw[0] == raw[1]: del raw[1]; del normal[1]`
+      let delLo := low == lowMean
+      if delLo && nv.length < 2 then eRaw "IndexError" else
+      let raw := if delLo then delAt raw 1 else raw
+      let nv := if delLo then delAt nv 1 else nv
+      if raw.all Option.isSome then .ok (raw.filterMap id, nv)
+      else if raw.length != nv.length then eMp "MixedArrayLengths" .cmd
+      else if hasDup (raw.filterMap id) then eMp "DuplicateRawValues" .none
+      else eRaw "Degenerate"        -- a nan control point without duplicates (unreachable: no value above the mean ⇒ low mean = mean)
+
+/-- `NormalizeMeanToMid.execute`: the curve through the mean-to-mid control points -/
+def meanToMidBody (a : Arr) (ignoreZeros : Bool) (normal : List Num) : Except Err Arr :=
+  match mtmPoints a.valid ignoreZeros normal with
+  | .error e => .error e
+  | .ok (raw, nv) => curveBody .none a raw nv
 
 /-- `NormalizeCurveZScore.execute` -/
 def curveZBody (sqrt : Rat → Rat) (a : Arr) (z normal : List Num) : Except Err Arr :=
